@@ -10,15 +10,21 @@ use std::sync::atomic::{AtomicU64, Ordering};
 
 pub const CRASH_EXIT: i32 = 77;
 
+/// Lives in its own anonymous mapping (not on the heap) so that a runaway write of the subject
+/// that tramples the heap before the fatal signal cannot destroy the description of the case.
+#[repr(C)]
 pub struct Ctx {
-  /// JSON object text of the case, without the closing brace
-  head: Vec<u8>,
-  idx: [u32; 24],
   n: usize,
+  idx: [u32; 24],
+  head_len: usize,
+  /// JSON object text of the case, without the closing brace
+  head: [u8; HEAD_MAX],
 }
+const HEAD_MAX: usize = 60 * 1024;
 
 thread_local! {
   static CTX: Cell<*mut Ctx> = const { Cell::new(std::ptr::null_mut()) };
+  static ACTIVE: Cell<bool> = const { Cell::new(false) };
 }
 
 static mut OUT_PATH: [u8; 512] = [0; 512];
@@ -55,11 +61,18 @@ fn put_num(buf: &mut [u8], pos: &mut usize, mut n: u64) {
 extern "C" fn handler(sig: libc::c_int, _info: *mut libc::siginfo_t, _uc: *mut libc::c_void) {
   unsafe {
     let p = CTX.with(|c| c.get());
-    if p.is_null() {
+    if p.is_null() || !ACTIVE.with(|a| a.get()) {
       // not inside subject code on a known case: machinery crash, die the default way
       libc::signal(sig, libc::SIG_DFL);
       libc::raise(sig);
       return;
+    }
+    // only the first crashing thread writes the artefact; the others wait for its _exit
+    static ENTERED: std::sync::atomic::AtomicBool = std::sync::atomic::AtomicBool::new(false);
+    if ENTERED.swap(true, Ordering::SeqCst) {
+      loop {
+        libc::pause();
+      }
     }
     let ctx = &*p;
     let buf: &mut [u8] = &mut *std::ptr::addr_of_mut!(BUF);
@@ -74,7 +87,7 @@ extern "C" fn handler(sig: libc::c_int, _info: *mut libc::siginfo_t, _uc: *mut l
     put(buf, &mut pos, b" while running this case\",\"evaluations_before\":");
     put_num(buf, &mut pos, EVALS.load(Ordering::Relaxed));
     put(buf, &mut pos, b",\"case\":");
-    put(buf, &mut pos, &ctx.head);
+    put(buf, &mut pos, &ctx.head[..ctx.head_len.min(HEAD_MAX)]);
     put(buf, &mut pos, b",\"idx\":[");
     for i in 0..ctx.n {
       if i > 0 {
@@ -120,11 +133,24 @@ pub fn arm(property: &str, path: &std::path::Path) {
 
 /// Publish the case this thread is about to run (`head` = JSON object text without closing brace).
 pub fn set_case(head: String) {
-  let b = Box::new(Ctx { head: head.into_bytes(), idx: [0; 24], n: 0 });
-  let old = CTX.with(|c| c.replace(Box::into_raw(b)));
-  if !old.is_null() {
-    unsafe { drop(Box::from_raw(old)) };
+  let mut p = CTX.with(|c| c.get());
+  if p.is_null() {
+    unsafe {
+      let m = libc::mmap(std::ptr::null_mut(), std::mem::size_of::<Ctx>(), libc::PROT_READ | libc::PROT_WRITE, libc::MAP_PRIVATE | libc::MAP_ANONYMOUS, -1, 0);
+      assert!(m != libc::MAP_FAILED, "mmap for crash context");
+      p = m as *mut Ctx;
+    }
+    CTX.with(|c| c.set(p));
   }
+  unsafe {
+    let c = &mut *p;
+    let b = head.as_bytes();
+    let n = b.len().min(HEAD_MAX);
+    c.head[..n].copy_from_slice(&b[..n]);
+    c.head_len = n;
+    c.n = 0;
+  }
+  ACTIVE.with(|a| a.set(true));
 }
 
 /// Update the index vector of the published case (cheap; called once per history / schedule).
@@ -145,10 +171,7 @@ pub fn set_idx(idx: &[usize]) {
 }
 
 pub fn clear_case() {
-  let old = CTX.with(|c| c.replace(std::ptr::null_mut()));
-  if !old.is_null() {
-    unsafe { drop(Box::from_raw(old)) };
-  }
+  ACTIVE.with(|a| a.set(false));
 }
 
 /// `value` serialised as a JSON object, closing brace removed (for `set_case`).
